@@ -1,3 +1,4 @@
+pub mod costmodel;
 pub mod optests;
 pub mod refhash;
 pub mod refserde;
